@@ -288,6 +288,11 @@ func (w *worker) watchdog() {
 	}
 }
 
+// ExitWorkerHarness is the exit code of a worker whose own machinery failed. It is deliberately not 2:
+// the Go runtime exits with 2 on an unrecovered panic, a fatal error ("concurrent map writes") or a
+// fatal signal, and those are deaths of the code under test — attributed to the in-flight case.
+const ExitWorkerHarness = 4
+
 // HarnessPanic marks a panic raised by the harness itself (machinery failure).
 type HarnessPanic struct{ Msg string }
 
@@ -298,7 +303,7 @@ func RunWorker(id string, p Params, shard, of, from, only int, out string) int {
 	ck := Lookup(id)
 	if ck == nil {
 		fmt.Fprintln(os.Stderr, "unknown property", id)
-		return 2
+		return ExitWorkerHarness
 	}
 	wits := Witnesses(id)
 	n := planCapped(ck, p)
@@ -307,7 +312,7 @@ func RunWorker(id string, p Params, shard, of, from, only int, out string) int {
 	f, err := os.Create(out + ".inflight")
 	if err != nil {
 		fmt.Fprintln(os.Stderr, err)
-		return 2
+		return ExitWorkerHarness
 	}
 	limit := ck.CaseCPU
 	if limit == 0 {
@@ -336,7 +341,7 @@ func RunWorker(id string, p Params, shard, of, from, only int, out string) int {
 		defer func() {
 			if r := recover(); r != nil {
 				fmt.Fprintf(os.Stderr, "VERIF-HARNESS-PANIC: case %d: %v\n%s\n", atomic.LoadInt64(&wk.curIdx), r, debug.Stack())
-				code = 2
+				code = ExitWorkerHarness
 			}
 		}()
 		for idx := 0; idx < total; idx++ {
@@ -601,7 +606,7 @@ func runWorkers(ck *Check, p Params, work string) (merged *Result, harnessFail b
 					code = 128
 				}
 			} else {
-				code = 2
+				code = ExitWorkerHarness
 			}
 		}
 		tail := ""
@@ -683,7 +688,7 @@ func runWorkers(ck *Check, p Params, work string) (merged *Result, harnessFail b
 				if code == 0 {
 					return
 				}
-				if code == 2 {
+				if code == ExitWorkerHarness || (code == 2 && strings.Contains(tail, "VERIF-HARNESS-PANIC")) {
 					mu.Lock()
 					harnessFail = true
 					fmt.Fprintf(os.Stderr, "worker %d: harness failure:\n%s\n", shard, tail)
@@ -780,12 +785,8 @@ func Orchestrate(id string, p Params) int {
 		}
 		twinInfo[tid] = map[string]interface{}{"cases": ttotal, "evaluations": tm.Evaluations, "workers": tnw, "race_detector": trace, "counters": tm.Counters, "max_counters": tm.MaxCounters, "tables": summarizeCover(tm.Cover), "rule": tck.Rule, "distinct_nontrivial": len(tm.hashSet)}
 	}
-	if harnessFail {
-		fmt.Println("HARNESS-FAILURE property=" + id)
-		return 2
-	}
-
-	// classify violations
+	// classify violations (a harness failure elsewhere in the run does not hide a witnessed violation:
+	// the exit code is 1 when an unknown violation has a witness, 2 when only the harness failed)
 	loadFindings()
 	knownSeen := map[string]int{}
 	var unknown []Violation
@@ -853,6 +854,7 @@ func Orchestrate(id string, p Params) int {
 		"unknown_violation_signatures": keys(seenSig),
 		"race_detector":                race,
 		"twins":                        twinInfo,
+		"harness_failure":              harnessFail,
 	}
 	if len(merged.Logs) > 0 {
 		if len(merged.Logs) > 40 {
@@ -873,7 +875,14 @@ func Orchestrate(id string, p Params) int {
 		fmt.Println(l)
 	}
 	if len(lines) > 0 {
+		if harnessFail {
+			fmt.Println("HARNESS-FAILURE property=" + id + " (in addition to the violations above)")
+		}
 		return 1
+	}
+	if harnessFail {
+		fmt.Println("HARNESS-FAILURE property=" + id)
+		return 2
 	}
 	min := ck.MinNonTrivial
 	if min < 2 {
@@ -921,7 +930,7 @@ var numRe = regexp.MustCompile(`[0-9]+`)
 
 func fatalSite(stderr string) string {
 	for _, l := range strings.Split(stderr, "\n") {
-		if strings.HasPrefix(l, "fatal error:") || strings.HasPrefix(l, "panic:") || strings.HasPrefix(l, "runtime:") {
+		if strings.HasPrefix(l, "fatal error:") || strings.HasPrefix(l, "panic:") || strings.HasPrefix(l, "runtime:") || strings.HasPrefix(l, "SIG") || strings.HasPrefix(l, "unexpected fault") {
 			return numRe.ReplaceAllString(l, "N")
 		}
 	}
